@@ -85,6 +85,17 @@ Verdict typeProp(Ctx& c) {
     const std::string gotStr = std::holds_alternative<rl::LogicT>(audit.GetType()) ? "LOGIC" : std::get<rl::Typification>(audit.GetType()).ToString();
     CHECK(got == ref.t, "wrong-typification", "'" + text + "' reported " + gotStr + ", typing rules give " + ref.t.str());
     if (ref.t.k != Ty::LOGIC) CHECK(gotStr == ref.t.str(), "typification-spelling", "'" + text + "' spelled " + gotStr + " want " + ref.t.str());
+    // value-class audit vs the reference value-class judgment
+    {
+      ValueJudge vj(g.G);
+      const VR vref = vj.check(e);
+      const bool vok = audit.CheckValue();
+      const auto vcls = audit.GetValueClass();
+      CHECK(vok == vref.ok, vok ? "value-audit-over-acceptance" : "value-audit-under-acceptance", "'" + text + "' CheckValue " + (vok ? "accepts" : "rejects") + ", value-class rules " + (vref.ok ? "accept" : "reject(" + vref.rule + ")"));
+      if (vok) CHECK((vcls == rl::ValueClass::props) == (vref.cls == VClass::props), "value-class", "'" + text + "' reported " + (vcls == rl::ValueClass::props ? "props" : "value") + ", rules give " + (vref.cls == VClass::props ? "props" : "value"));
+      else CHECK(audit.Errors().HasCriticalErrors(), "reject-without-critical-error", "'" + text + "' value audit rejected without critical error");
+      c.label(std::string("value-audit:") + (vok ? (vcls == rl::ValueClass::props ? "props" : "value") : "rejected:" + vref.rule));
+    }
     // declared argument list of function definitions
     const auto& args = audit.GetDeclarationArgs();
     CHECK(args.size() == judge.declaredArgs.size(), "declared-args", "'" + text + "' reports " + std::to_string(args.size()) + " declared arguments, want " + std::to_string(judge.declaredArgs.size()));
